@@ -30,6 +30,8 @@ impl<'a> NoUndefinedVariables<'a> {
         undef: &mut Vec<(&'a str, Pos)>,
         visited: &mut HashSet<Scope<'a>>,
     ) {
+        #[cfg(async_graphql_verif)]
+        crate::verif_hooks::RULE_STEPS[2].fetch_add(1, std::sync::atomic::Ordering::Relaxed);
         if visited.contains(scope) {
             return;
         }
